@@ -416,7 +416,17 @@ def rule_grid(ctx: Ctx) -> RuleReport:
     dm = ctx.p.module(DOCX_)
     tf = ctx.p.func(DOCX_, "_extract_tables_from_context")
     rep.unit(tf.key)
-    row_loops = [l for l in ast.walk(tf.node) if isinstance(l, ast.For) and any(isinstance(c, ast.Call) and isinstance(c.func, ast.Attribute) and c.func.attr == "append" and isinstance(c.func.value, ast.Name) and c.func.value.id == "table_data" for st in l.body for c in ast.walk(st))]
+    # the row loop: iterates the w:tr elements of a table
+    def _iter_tags(l):
+        out = set()
+        for a in ast.walk(l.iter):
+            v = ctx.folder.fold(dm, a) if isinstance(a, (ast.Name, ast.Tuple)) else None
+            for t in (v if isinstance(v, (tuple, list)) else [v]):
+                if isinstance(t, str) and "}" in t:
+                    out.add(t.rsplit("}", 1)[1])
+        return out
+
+    row_loops = [l for l in ast.walk(tf.node) if isinstance(l, ast.For) and _iter_tags(l) == {"tr"}]
     if not row_loops:
         raise AnalysisError("C13-GRID: the row loop of _extract_tables_from_context was not found")
     rl = row_loops[0]
